@@ -14,7 +14,10 @@ FORMULAS = [
     "y ~ {binary(f, 'a') * x} + z", "y ~ I(scale(x) * z) + h", "y ~ binary(g, success='v') + x", "y ~ poly(x, degree=2, raw=True)",
     "y ~ T(f, ref='b') + bs(z, 4, degree=2)", "y ~ I(center(x) + binary(h, 'p')) + (1|g)",
     "f ~ x", "s['yes'] ~ x + f", "prop(succ, trials) ~ x", "y ~ times(x, by=z)", "y ~ offset(z) + x",
+    "y ~ C(g, levels=lv8) + x", "y ~ C(f, Sum, levels=lf8):x", "y ~ x + (1|C(g, levels=lv8))",
 ]
+lv8 = ["w", "u", "v"]
+lf8 = ["c", "a", "b"]
 
 
 def upper(s):
